@@ -496,8 +496,9 @@ def configs(tier):
   return [(('plain3', 1, 'thread', 'all'), 1), (('group', 1, 'thread', 'all'), 1), (('trigger', 1, 'thread', 'all'), 1),
           (('repeat', 1, 'thread', 'all'), 1), (('subtest', 1, 'thread', 'all'), 1), (('group', 1, 'thread', 'body'), 2),
           (('group', 2, 'thread', 'wide'), 0), (('group', 2, 'thread', 'body'), 1), (('plain3', 2, 'thread', 'body'), 1),
-          (('plain3', 1, 'sigint'), 2), (('group', 1, 'sigint'), 1), (('group', 2, 'sigint', 'free'), 1),
-          (('trigger', 2, 'sigint', 'free'), 0), (('subtest', 2, 'sigint', 'free'), 0)]
+          (('plain3', 1, 'sigint'), 1), (('group', 1, 'sigint'), 1), (('trigger', 1, 'sigint'), 1), (('repeat', 1, 'sigint'), 1),
+          (('subtest', 1, 'sigint'), 1), (('group', 2, 'sigint', 'free'), 0), (('plain3', 2, 'sigint', 'free'), 0),
+          (('trigger', 2, 'sigint', 'free'), 0), (('subtest', 2, 'sigint', 'free'), 0), (('repeat', 2, 'sigint', 'free'), 0)]
 
 
 def run(tier):
